@@ -282,9 +282,9 @@ theorem EntryOk.mono {socks socks' : List Sock} {e : Addr × Incomer}
 theorem inv_init (tls : Bool) (eha : Addr) : Inv (init tls eha) :=
   ⟨List.nodup_nil, List.nodup_nil, fun _ h => (nomatch h), fun _ h => (nomatch h)⟩
 
-theorem inv_admit (v : Version) (s : State) (cs : Nat) (ca : Addr) (h : Inv s) :
-    Inv (admit v s cs ca).state := by
-  unfold admit
+theorem inv_admitOne (v : Version) (s : State) (cs : Nat) (ca : Addr) (h : Inv s) :
+    Inv (admitOne v s cs ca).state := by
+  unfold admitOne
   split
   · exact h
   · next k hk =>
@@ -336,7 +336,7 @@ theorem inv_axesLoop (v : Version) (s : State) (l : List (Nat × Addr)) (h : Inv
   | cons e rest ih =>
     obtain ⟨cs, ca⟩ := e
     unfold axesLoop
-    have := inv_admit v { s with axes := rest } cs ca (inv_axes_irrelevant rest h)
+    have := inv_admitOne v { s with axes := rest } cs ca (inv_axes_irrelevant rest h)
     split
     · next s' hs => rw [hs] at this; exact ih s' this
     · next e' s' hs => rw [hs] at this; exact this
@@ -602,10 +602,10 @@ structure PlainInv (s : State) : Prop where
   plain : s.tls = false
   acc : Accounted s
 
-theorem plain_admit (s : State) (cs : Nat) (ca : Addr) (h : PlainInv s) :
-    PlainInv (admit .fixed s cs ca).state := by
-  have hi := inv_admit .fixed s cs ca h.inv
-  unfold admit at hi ⊢
+theorem plain_admitOne (s : State) (cs : Nat) (ca : Addr) (h : PlainInv s) :
+    PlainInv (admitOne .fixed s cs ca).state := by
+  have hi := inv_admitOne .fixed s cs ca h.inv
+  unfold admitOne at hi ⊢
   split
   · exact h
   · next k hk =>
@@ -660,7 +660,7 @@ theorem plain_axesLoop (s : State) (l : List (Nat × Addr)) (h : PlainInv s) :
   | cons e rest ih =>
     obtain ⟨cs, ca⟩ := e
     unfold axesLoop
-    have := plain_admit { s with axes := rest } cs ca ⟨inv_axes_irrelevant rest h.inv, h.plain, h.acc⟩
+    have := plain_admitOne { s with axes := rest } cs ca ⟨inv_axes_irrelevant rest h.inv, h.plain, h.acc⟩
     split
     · next s' hs => rw [hs] at this; exact ih s' this
     · next e' s' hs => rw [hs] at this; exact this
